@@ -44,6 +44,7 @@ def run_lifecycle(sc):
     inj = {'inject_toolong': gen.rx_match_frame(a, bytes([0x10, 0x00, 0x00, 0x00, 0x20, 0x00, 0xAA, 0xBB])),
            'inject_fc': gen.rx_match_frame(a, bytes([0x30, 0x00, 0x00])),
            'inject_ff': gen.rx_match_frame(a, bytes([0x10, 20, 1, 2, 3, 4, 5, 6]))}
+    mf_ok = []
     rx_after = []       # is_rx_active() right after each stop_receiving() that returned normally on a started layer
     if kind == 'tl':
         rxfn_a = rx_a
@@ -115,6 +116,22 @@ def run_lifecycle(sc):
                 L.process(do_rx=False)
             elif op == 'send_long':
                 L.send(bytes([9] * 400))
+            elif op == 'inject_mf':
+                # a well-formed 20-byte segmented message from the bus, frames 80 ms apart (the worker leaves process() in between): a started layer must deliver it
+                was_started = L.started
+                while was_started and L.recv() is not None:
+                    pass
+                body = bytes(range(50, 70))
+                for part in (bytes([0x10, 20]) + body[:6], bytes([0x21]) + body[6:13], bytes([0x22]) + body[13:20]):
+                    fid, ext, data = gen.rx_match_frame(a, part)
+                    if kind == 'tl':
+                        qa.put(isotp.CanMessage(arbitration_id=fid, data=data, extended_id=ext))
+                    else:
+                        bus2.send(can.Message(arbitration_id=fid, data=data, is_extended_id=ext))
+                    time.sleep(0.08)
+                if was_started:
+                    got = L.recv(block=True, timeout=1.0)
+                    mf_ok.append(got is not None and bytes(got) == body)
             elif op in inj:
                 fid, ext, data = inj[op]
                 msg = isotp.CanMessage(arbitration_id=fid, data=data, extended_id=ext)
@@ -136,6 +153,15 @@ def run_lifecycle(sc):
         info.append((op, exc, dur, clean))
         if op in inj:
             lines_in.append('tl bus %d %d %s' % (inj[op][0], 1 if inj[op][1] else 0, inj[op][2].hex()))
+        elif op == 'inject_mf':
+            out_l = '%s|started=%d clean=%s' % ('ok' if exc is None else 'exc ' + exc, 1 if L.started else 0, clean)
+            body = bytes(range(50, 70))
+            for part in (bytes([0x10, 20]) + body[:6], bytes([0x21]) + body[6:13]):
+                fid, ext, data = gen.rx_match_frame(a, part)
+                lines_in.append('tl bus %d %d %s' % (fid, 1 if ext else 0, data.hex()))
+                lines_out.append(out_l)
+            fid, ext, data = gen.rx_match_frame(a, bytes([0x22]) + body[13:20])
+            lines_in.append('tl bus %d %d %s' % (fid, 1 if ext else 0, data.hex()))
         else:
             lines_in.append('tl %s' % ('send_mf' if op == 'send_long' else op))
         lines_out.append('%s|started=%d clean=%s' % ('ok' if exc is None else 'exc ' + exc, 1 if L.started else 0, clean))
@@ -160,6 +186,20 @@ def run_lifecycle(sc):
                 if got is not None and bytes(got) == payload:     # earlier payloads of the sequence may still trickle in
                     restart_ok = True
                     break
+            if restart_ok:
+                # ... and in the other direction: the restarted layer RECEIVES a segmented payload (nothing asked for by an earlier
+                # stop_sending() / stop_receiving() / reset() may still be acted upon)
+                restart_ok = False
+                while L.recv() is not None:
+                    pass
+                payload2 = bytes(range(100, 141))
+                peer.send(payload2)
+                t_end = time.time() + 5
+                while time.time() < t_end:
+                    got = L.recv(block=True, timeout=0.2)
+                    if got is not None and bytes(got) == payload2:
+                        restart_ok = True
+                        break
             L.stop()
         except Exception as e:
             restart_ok = False
@@ -171,7 +211,7 @@ def run_lifecycle(sc):
         except Exception:
             pass
     leftover = [t.name for t in threading.enumerate() if t not in base_threads and t.is_alive() and 'Notifier' not in t.name]
-    sc['_result'] = {'rx_after_stop_receiving': rx_after, 'info': info, 'restart_ok': restart_ok, 'leftover': leftover, 'errors': errors}
+    sc['_result'] = {'mf_ok': mf_ok, 'rx_after_stop_receiving': rx_after, 'info': info, 'restart_ok': restart_ok, 'leftover': leftover, 'errors': errors}
     return lines_in, lines_out
 
 
@@ -262,6 +302,13 @@ class C14(PropBase):
                 k += 1
                 yield {'ops': [], 'ops_list': list(ops), 'addrs': (a, b), 'kind': 'tl', 'peer': False, 'read_timeout': rt, 'bs': 2, 'stmin': 0,
                        'seed': 1000 + k}
+        # what a lifecycle call asked for is acted upon ONCE: the layer receives normally afterwards, in the same session and after a restart
+        for kind in ('tl', 'notifier'):
+            for pre in (['stop_receiving'], ['stop_sending'], ['stop_receiving', 'stop_sending'], ['inject_ff', 'sleep', 'stop_receiving']):
+                for post in ([], ['stop', 'start', 'sleep', 'inject_mf']):
+                    k += 1
+                    yield {'ops': [], 'ops_list': ['start'] + pre + ['sleep', 'inject_mf'] + post + ['stop'], 'addrs': (a, b), 'kind': kind,
+                           'peer': False, 'read_timeout': 0.05, 'bs': 2, 'stmin': 0, 'seed': 1000 + k}
         # rate limiter with a long window: what was sent before a stop() / reset() must not count against the restarted layer
         # (402 bits per 3 s window: one 20-byte message = 192 bits, the 30-byte message of the restart check = 320 bits)
         for ops in (['start', 'send_mf', 'sleep', 'sleep', 'sleep', 'stop'], ['start', 'send_mf', 'sleep', 'sleep', 'sleep', 'stop', 'start', 'sleep', 'stop'],
@@ -304,6 +351,8 @@ class C14(PropBase):
                 out.append(('exceptions', '%s raised %s' % (op, exc)))
             elif exc is not None:
                 out.append(('exceptions', '%s() raised %s' % (op, exc)))
+        if not all(res.get('mf_ok') or []):
+            out.append(('receives', 'a started layer did not deliver a well-formed segmented message from the bus (frames 80 ms apart)'))
         if any(res.get('rx_after_stop_receiving') or []):
             out.append(('stop_receiving', 'stop_receiving() returned normally on a started layer but the reception is still in progress'))
         if res['restart_ok'] is False:
